@@ -278,4 +278,16 @@ theorem C02_no_number_language (cc : CharClasses) (l : Language) (thr : Nat → 
   C02_no_number { lang := l.interp, cc := cc, sep := noSep, thrLt := thr } (l.annotate cc) s
     (C02_annotate_text cc l) h
 
+/-- the empty text comes back empty, for every language and threshold -/
+theorem C02_empty_text (cc : CharClasses) (l : Language) (thr : Nat → Bool) :
+    replaceText cc l thr [] = .ok [] := by
+  apply C02_no_number_language
+  have ht : tokenize cc [] = [] := by simp [tokenize, tokenizeWords, tokenizeAux]
+  rw [ht]
+  have ha : l.annotate cc [] = [] := by
+    have := C02_annotate_length cc l []
+    exact List.eq_nil_of_length_eq_zero (by simpa using this)
+  rw [ha]
+  rfl
+
 end T2N.C02
